@@ -500,6 +500,7 @@ def setup_fs(ex, dest_state='absent', chown_permitted=True):
         fs.mkdirs(DEST)
     if dest_state == 'populated':
         fs.put_file(DEST + '/existing', [('old', 0, 3)])
+        fs.put_file(DEST + '/p/f', [('precious', 0, 8)])
     if dest_state == 'only-symlinks':
         # nothing but symbolic links: one of them named like an archived file and pointing outside the destination
         fs.mkdirs(DEST)
@@ -789,12 +790,16 @@ def make_refuse(prog):
             state = DEST_STATES[ex.concretize(ex.fresh_int('dest', 0, len(DEST_STATES) - 1), 0, len(DEST_STATES) - 1, 'dest state')]
             overwrite = ex.branch(ex.fresh_bool('overwrite'), 'overwrite?')
             fs = setup_fs(ex, state)
-            entries = [E('/', 'Dir', mode=0o755, sec=1), E('/existing', 'File', size=4, cls=7, mode=0o600, sec=2), E('/n', 'File', size=3, cls=8, mode=0o644, sec=3)]
+            entries = [E('/', 'Dir', mode=0o755, sec=1), E('/existing', 'File', size=4, cls=7, mode=0o600, sec=2), E('/n', 'File', size=3, cls=8, mode=0o644, sec=3),
+                       E('/p', 'Dir', mode=0o755, sec=4), E('/p/f', 'File', size=5, cls=9, mode=0o644, sec=5)]
             put_band(ex, st, 0, entries)
             ex.env['bands'] = [(0, True, entries)]
             st.mode = 'run'
+            # the whole tree, or only the subtree /p (the root entry is then not part of the selection)
+            subtree = '/p' if ex.branch(ex.fresh_bool('only_subtree'), 'restore only a subtree?') else None
+            ex.env['subtree'] = subtree
             before = {p: n.state() for p, n in fs.nodes.items()}
-            r = run_restore(ex, ar, DEST, restore_options(ex, overwrite=overwrite))
+            r = run_restore(ex, ar, DEST, restore_options(ex, overwrite=overwrite, subtree=subtree))
             problems = []
             if state in ('populated', 'only-symlinks') and not overwrite:
                 if r.variant == 0 or variant_name(ex, r.fields[0]) != 'DestinationNotEmpty':
@@ -819,8 +824,11 @@ def make_refuse(prog):
                 return
             problems, state, overwrite, fs = out[1]
             if problems:
+                sc_ = {'bands': bands_json(None, ex.env['bands']), 'restore_band': 0, 'dest': state, 'overwrite': overwrite}
+                if ex.env.get('subtree'):
+                    sc_['subtree'] = ex.env['subtree']
                 res['bad'].append({'kind': 'refusal', 'problems': problems[:4], 'dest': state, 'overwrite': overwrite, 'syscalls': fs.log[-10:],
-                                   'scenario': {'bands': bands_json(None, ex.env['bands']), 'restore_band': 0, 'dest': state, 'overwrite': overwrite}})
+                                   'subtree': ex.env.get('subtree'), 'scenario': sc_})
             elif len(res['samples']) < 2:
                 res['samples'].append({'dest': state, 'overwrite': overwrite, 'syscalls': fs.log[-6:]})
         return h, on_path, res
